@@ -23,6 +23,7 @@ pub type GM = GuestMemoryMmap<AtomicBitmap>;
 
 thread_local! {
     static LAST_PANIC: RefCell<Option<String>> = const { RefCell::new(None) };
+    static IN_GUARD: std::cell::Cell<u32> = const { std::cell::Cell::new(0) };
 }
 
 /// Install a quiet panic hook that records message + location for the violation report.
@@ -36,6 +37,10 @@ pub fn install_panic_hook() {
             "<non-string panic>".to_string()
         };
         let loc = info.location().map(|l| format!("{}:{}", l.file(), l.line())).unwrap_or_default();
+        if IN_GUARD.with(|g| g.get()) == 0 {
+            // a panic of the harness itself: never silent
+            eprintln!("HARNESS-PANIC: {} @ {}", msg, loc);
+        }
         LAST_PANIC.with(|p| *p.borrow_mut() = Some(format!("{} @ {}", msg, loc)));
     }));
 }
@@ -46,7 +51,10 @@ pub fn take_panic() -> Option<String> {
 
 /// Run `f`, returning Err(panic description) if it panicked.
 pub fn guarded<T>(f: impl FnOnce() -> T) -> Result<T, String> {
-    match catch_unwind(AssertUnwindSafe(f)) {
+    IN_GUARD.with(|g| g.set(g.get() + 1));
+    let r = catch_unwind(AssertUnwindSafe(f));
+    IN_GUARD.with(|g| g.set(g.get() - 1));
+    match r {
         Ok(v) => Ok(v),
         Err(_) => Err(take_panic().unwrap_or_else(|| "<panic>".to_string())),
     }
